@@ -1,0 +1,6 @@
+//go:build verif
+
+package node
+
+// VerifReportError exposes reportError to verification harnesses.
+func VerifReportError(err ParserError, line string) { reportError(err, line) }
